@@ -123,6 +123,16 @@ CHECKS = {
              'malformed ones; cell orders); the character-level scanner (comments, blanks, line breaks) is exercised by the spellings only, not modelled; strtod/libm trusted; '
              '[Begin Information] sections and a blank after the comma of an NPD #:parameters list are not claimed as allowed spellings.',
         ref='DESIGN.md §6 C08'),
+    'C09': dict(
+        technique='Lean 4 proof (NPD record scanner as a total function: well-formed fields, progress, bounded record count; bounds theorems of C06) on a hand model + correspondence through the loader diagnostics + structure-aware mutation fuzzing under ASan/UBSan as oracle',
+        text='Theorems: the NPD scanner model is total (structural recursion), every field it returns is non-empty and blank-free, every record consumes input, a file of n bytes has at '
+             'most n records; the loaders index inside the checked line and write inside the sized object (C06). On the compiled C: valid Touchstone 1/2, NPD, .vnacal and YAML inputs '
+             'are mutated (every truncation point of their heads, line deletion/duplication/swap, boundary-value tokens, header counts, byte flips, insertions) plus random bytes; '
+             'each load must terminate, and either fail with EBADMSG / ENOPROTOOPT / a system errno leaving the object usable and nothing allocated, or succeed with an object whose '
+             'dimensions fit its type and that saves and re-loads to the same content (.vnacal: save/load/save fixed point).',
+        note='Lean kernel + standard axioms; totality of the C parsers over all byte strings is sampled by the fuzzing, not proved: only the NPD scanner is modelled (Model/NpdScan.lean), tied '
+             'through the loader\'s own `expected N fields; found M` messages; libyaml is trusted; allocations above 1 GiB are refused by the sanitizer run-time (ENOMEM paths).',
+        ref='DESIGN.md §6 C09'),
     'C12': dict(
         technique='Lean 4 proof (retry equivalence and invariant preservation of partially completed extensions, on the vnadata model of C15) + exhaustive single-allocation-failure injection over scripted histories of the compiled C',
         text='Theorems for every object, size and stopping point: what a failed vnadata_resize leaves behind (extensions complete up to the failing stage, the failing one '
